@@ -166,7 +166,7 @@ func ojNames(o *OJ, out map[string]bool) {
 
 func runC17(cfg runCfg) error {
 	sum := &summary{Property: "C17", Seed: cfg.seed, Features: map[string]int{}, CaseInputs: map[string]interface{}{},
-		Rule: "merged schemas of the three fixtures and of random federations (as for C07: interfaces, unions, enums with deprecated values, inputs with defaults, arguments with defaults, descriptions, namespaces, Mutation) x no permissions or a random permission tree over Query and Mutation (as for C18's view stream) x the standard introspection query through the real gateway; per case also: __type by literal name for three type names (in the view, outside it, unknown), an aliased query, and fields/enumValues with includeDeprecated false, absent and by variable, each compared with the projection of the standard answer; and, against a gateway with introspection disabled, the standard query and __schema/__type reached directly, aliased, through inline fragments (with and without type condition, nested) and through a named fragment; non-trivial = permissions present or the schema is generated"}
+		Rule: "merged schemas of the three fixtures and of random federations (as for C07: interfaces, unions, enums with deprecated values, inputs with defaults, arguments with defaults, descriptions, namespaces, Mutation) x no permissions or a random permission tree over Query and Mutation (as for C18's view stream) x the standard introspection query through the real gateway; per case also: __type by literal name for three type names (in the view, outside it, unknown), an aliased query, a named fragment spread twice (against its fragment-free form), and fields/enumValues with includeDeprecated false, absent and by variable, each compared with the projection of the standard answer; and, against a gateway with introspection disabled, the standard query and __schema/__type reached directly, aliased, through inline fragments (with and without type condition, nested) and through a named fragment; non-trivial = permissions present or the schema is generated"}
 	w := &caseWriter{dir: cfg.out, shard: 6, check: "check_introspect_case",
 		imports: "From V Require Import Base.Util Gql.Ast Model.Perm Model.View Model.Introspect Corr.IntrospectCheck."}
 	type src struct {
@@ -429,6 +429,34 @@ func runC17(cfg runCfg) error {
 		}
 		add("prop.c17.nested_types_consistent", okNested, nestedDetail)
 		add("prop.c17.type_by_name_consistent", okType, detail)
+		{
+			// one named fragment spread at two places, at the first of which a sibling repeats one of its fields: every
+			// spread must still yield all of the fragment's fields (compare with the fragment-free form)
+			withFrag := "{ __schema { queryType { name ...T } types { ...T } } }\nfragment T on __Type { name kind }"
+			without := "{ __schema { queryType { name kind } types { name kind } } }"
+			ra, err := s.gw.do(context.Background(), withFrag, nil, "", hdr)
+			if err != nil {
+				return err
+			}
+			rb, err := s.gw.do(context.Background(), without, nil, "", hdr)
+			if err != nil {
+				return err
+			}
+			// the order of __schema.types follows Go's map iteration: compare the entries as a sorted list
+			canon := func(d *OJ) string {
+				sc := ojGet(d, "__schema")
+				out := []string{"queryType=" + fmt.Sprint(ojGet(sc, "queryType"))}
+				if ts := ojGet(sc, "types"); ts != nil && ts.Kind == "arr" {
+					for _, t := range ts.Arr {
+						out = append(out, fmt.Sprint(t))
+					}
+				}
+				sort.Strings(out[1:])
+				return strings.Join(out, ";")
+			}
+			okFrag := canon(ra.Data) == canon(rb.Data) && len(ra.Errors) == len(rb.Errors)
+			add("prop.c17.fragments_consistent", okFrag, fmt.Sprintf("%s\n gave %.600s\n the fragment-free form gave %.600s", withFrag, fmt.Sprint(ra.Data), fmt.Sprint(rb.Data)))
+		}
 		add("prop.c17.aliases_consistent", okAlias, detail)
 		add("prop.c17.include_deprecated_consistent", okDep, detail)
 		// ---- introspection disabled: no type or field name of the schema is revealed
